@@ -65,6 +65,9 @@ class _Engine:
 
 def _scale(sample, l_bounds, u_bounds):
     """qmc.scale by contract: the affine map l + (u - l) * x per column."""
+    if np.size(l_bounds) == 0 or np.size(sample) == 0:
+        # library pre-condition (scipy.stats.qmc.scale validates its bounds with a reduction that has no identity)
+        raise ValueError("zero-size array to reduction operation maximum which has no identity")
     return sample * (np.asarray(u_bounds) - np.asarray(l_bounds)) + np.asarray(l_bounds)
 
 
@@ -76,6 +79,8 @@ def cases_sampler(tier):
             masks = [None] + [list(m) for m in itertools.product((False, True), repeat=N) if any(m) and not all(m)]
             if quick:
                 masks = masks[:2]
+            # every variable assigned to the sampler is fixed (or it has none): it handles nothing and returns zeros
+            masks = masks + [[False] * N]
             for mask in masks:
                 for shared in (False, True):
                     yield "%s/R%dP%dN%d/mask=%s/%s" % (method, R, P, N, mask, "shared" if shared else "per-realization"), {
@@ -145,6 +150,9 @@ def scn_sampler(T, case):
             if i not in cols:
                 z = (lambda v: T.same(v, 0.0)) if T.symbolic else (lambda v: float(v) == 0.0)
                 T.prove("C17.entries_of_unhandled_variables_are_exactly_zero", T.all([z(out[r, p, i]) for r in range(R) for p in range(P)]))
+        if not cols:
+            # the sampler handles no variable: nothing needs to be drawn, everything is zero (checked above)
+            continue
         draw = draws[call]
         if method in STATS:
             T.prove("C17.stats.drawn_with_the_requested_shape", tuple(draw.shape) == (Rd, P, d))
@@ -177,7 +185,7 @@ def cases_native(tier):
     for method in STATS + QMC:
         for (R, P, N) in ((2, 2, 2), (3, 4, 3)) + (() if tier == "quick" else ((1, 8, 2), (4, 2, 1))):
             for shared in (False, True):
-                for mask in (None, [True] + [False] * (N - 1) if N > 1 else None):
+                for mask in (None, [True] + [False] * (N - 1) if N > 1 else None, [False] * N):
                     yield "%s/R%dP%dN%d/%s/mask=%s" % (method, R, P, N, "shared" if shared else "own", mask), {
                         "method": method, "R": R, "P": P, "N": N, "shared": shared, "mask": mask, "__concrete_only__": True}
 
@@ -205,7 +213,9 @@ def scn_native(T, case):
         eng = {"sobol": Sobol, "halton": Halton, "lhs": LatinHypercube}[method](d, seed=ref_rng) if method in QMC else None
         for call in range(2):
             out = s.generate_samples()
-            if method in QMC:
+            if d == 0:
+                ref = np.zeros((Rd, P, 0))  # no variable handled: the reference draws nothing
+            elif method in QMC:
                 ref = scale(eng.random(Rd * P), [-1.0] * d, [1.0] * d).reshape(Rd, P, d)
             else:
                 dist, kw = {"norm": (norm, {}), "uniform": (uniform, {"loc": -1.0, "scale": 2.0}), "truncnorm": (truncnorm, {"a": -1.0, "b": 1.0})}[method]
@@ -215,15 +225,34 @@ def scn_native(T, case):
             full = np.zeros((R, P, N))
             full[..., marr if marr is not None else slice(None)] = ref
             T.prove("C17.native.equals_identically_seeded_scipy_reference", bool(np.array_equal(out, full)), "call %d" % call)
-            if method == "lhs" and not shared:
+            if method == "lhs" and not shared and d > 0:
                 pts = (out[..., marr if marr is not None else slice(None)].reshape(R * P, d) + 1.0) / 2.0
                 strata = np.sort(np.floor(pts * (R * P)).astype(int), axis=0)
                 T.prove("C17.native.latin_hypercube_stratification_per_variable", bool(np.all(strata == np.arange(R * P)[:, None])))
 
 
+# ------------------------------------------------------------------------------------ which variables a sampler is told to handle
+def cases_assignment(tier):
+    from contracts.C09 import cases_get_mask
+
+    for cid, c in cases_get_mask(tier):
+        if c["N"] <= (2 if tier == "quick" else 3):
+            yield cid, dict(c, prefix="C17.assignment")
+
+
+def scn_assignment(T, case):
+    """'Variables it does not handle (fixed, or assigned to another sampler)': the mask that EnsembleEvaluator hands to each
+    sampler is exactly (free) AND (assigned to it) - an empty selection is an all-False mask, never None, which a sampler reads
+    as 'all variables' (the scenario of C09, stated here as the pre-condition of the sampler contract above)."""
+    from contracts.C09 import scn_get_mask
+
+    scn_get_mask(T, case)
+
+
 SCENARIOS = [
     Scenario("sampler_contract", scn_sampler, cases_sampler, {"quick": 3, "thorough": 20}),
     Scenario("native_scipy_reference", scn_native, cases_native, {"quick": 3, "thorough": 30}),
+    Scenario("sampler_variable_assignment", scn_assignment, cases_assignment, {"quick": 1, "thorough": 1}),
 ]
 
 MANIFEST = {
@@ -231,6 +260,6 @@ MANIFEST = {
     "text": "Deductive, given SciPy's library contracts: shape, zeros outside the mask, shared/own draws, QMC point integrity (each perturbation vector is one scaled point, row r*P+p), "
             "range [-1,1], generator passing, default options and fresh result arrays are discharged by z3 on the real SciPySampler code for symbolic draws, per enumerated "
             "shape (R,P,N <= 3) and mask. The real SciPy engines are additionally compared bit-for-bit with identically seeded references (bounded).",
-    "note": "scipy.stats / scipy.stats.qmc by assumed library contract in the proof; native comparison against the real SciPy is a bounded stand-in; bounded in shape",
+    "note": "includes samplers that handle no variable (all-False mask) and the mask assignment made by EnsembleEvaluator; scipy.stats / scipy.stats.qmc by assumed library contract in the proof; native comparison against the real SciPy is a bounded stand-in; bounded in shape",
     "technique": "contract-based deductive verification: symbolic execution of the real source under sidecar contracts (library contracts for SciPy), VCs discharged by z3/cvc5; bounded run-time contract checking as stand-in",
 }
